@@ -72,7 +72,7 @@ def run(tier):
     v.cov['samples'].append(dict(kind='E1 case from TLC (RegpEmitMC.tla): emit call | rc seq wire -7 peer view', events=cases[3000:3002]))
     v.notes['e0_e1'] = dict(model='RegpEmitMC.tla', cases=len(cases))
     ss = []
-    for rnd in vf.rounds(tier, 3):
+    for rnd in vf.rounds(tier, 8):
         ss += list(scripts(rnd, quick))
     vf.trace_flow(v, 'RegpTrace.tla', 'RegpTrace.cfg', 'regp', ss, 'emit')
     v.cov['distinct_nontrivial'] += len(set(l for s in ss for l in s))
